@@ -117,7 +117,7 @@ def main(chk):
     mir = mirsym.dump_mir()
     native.build(); native.build('release')
     q = chk.tier == 'quick'
-    to = 90 if q else 900
+    to = 90 if q else 300
     ns = (1, 2, 3) if q else (1, 2, 3, 4)
     jobs = []
     factors = [F(1, 2 ** 40), F(2 ** 40), F(1, 3), F(7)] if q else [F(1, 2 ** 40), F(1, 2), F(2), F(2 ** 40), F(1, 3), F(7), F(1000), F(1, 10 ** 9)]
@@ -125,7 +125,7 @@ def main(chk):
         mode = 'scalar' if IND[name]['scalar'] else 'bar'
         for n in ns:
             if IND[name]['np'] == 0 and n > 1: continue
-            if q and n > 2 and name in ('SLOW_STOCH', 'CE', 'SD', 'BB'): continue
+            if n > 2 and name in ('SLOW_STOCH', 'CE', 'SD', 'BB') and (q or n > 3): continue
             t = (2 * n + 2) if IND[name]['np'] else 5
             for c in (factors[:2] + factors[2:3] if (q and n > 1) else factors):
                 jobs.append((r_family, (mir, name, mode, n, t, 'scale', c, chk.seed, to), {}))
